@@ -244,9 +244,11 @@ func newRefineFam(thorough bool) *factsFam {
 
 type refineFam struct{ thorough bool }
 
-func (f *refineFam) inner() *factsFam           { return newRefineFam(f.thorough) }
-func (f *refineFam) Name() string               { return "refine" }
-func (f *refineFam) Roots() []Program           { return append(f.inner().Roots(), refineDecls()...) }
+func (f *refineFam) inner() *factsFam { return newRefineFam(f.thorough) }
+func (f *refineFam) Name() string     { return "refine" }
+func (f *refineFam) Roots() []Program {
+	return append(append(f.inner().Roots(), refineDecls()...), refineNonZero()...)
+}
 func (f *refineFam) Extend(p Program) []Program { return f.inner().Extend(p) }
 
 // refineDecls are flat programs about declarations: zero-default violations
@@ -262,6 +264,83 @@ func refineDecls() []Program {
 		src := render("foo", []string{"r : base.u8"},
 			fn{header: "pub func foo.m!(x: base.u8)", vars: []string{"v : " + vt}, body: []string{"this.r = args.x"}})
 		out = append(out, mk("refine", src, tags("decl", "var "+vt), nil))
+	}
+	return out
+}
+
+// refineNonZero: fields and locals of scalar / array / nested-array type whose
+// element refinement EXCLUDES zero (objects are zero-initialised), read before
+// any store and used where the checker trusts the refinement: as divisor,
+// modulus, index offset `a[e - 1]`, argument of a callee with the same
+// refinement, through a slice of the refined elements; plus store-then-read
+// controls. Flat programs.
+func refineNonZero() []Program {
+	var out []Program
+	type decl struct {
+		tag    string
+		field  string // struct field declaration, or ""
+		local  string // local variable declaration, or ""
+		elem   func(idx string) string
+		slice  string // expression for a slice of the elements ("" if scalar)
+		scalar bool
+	}
+	decls := []decl{
+		{"field array[4]", "d : array[4] base.u32[1 ..= 8]", "", func(i string) string { return "this.d[" + i + "]" }, "this.d[..]", false},
+		{"field array[2] array[4]", "d : array[2] array[4] base.u32[1 ..= 8]", "", func(i string) string { return "this.d[1][" + i + "]" }, "this.d[1][..]", false},
+		{"local array[4]", "", "d : array[4] base.u32[1 ..= 8]", func(i string) string { return "d[" + i + "]" }, "d[..]", false},
+		{"local array[2] array[4]", "", "d : array[2] array[4] base.u32[1 ..= 8]", func(i string) string { return "d[1][" + i + "]" }, "d[1][..]", false},
+		{"field scalar", "d : base.u32[1 ..= 8]", "", func(string) string { return "this.d" }, "", true},
+		{"local scalar", "", "d : base.u32[1 ..= 8]", func(string) string { return "d" }, "", true},
+		{"field array[4], zero allowed", "d : array[4] base.u32[..= 8]", "", func(i string) string { return "this.d[" + i + "]" }, "this.d[..]", false},
+	}
+	type use struct {
+		tag  string
+		body func(d decl) []string
+	}
+	uses := []use{
+		{"divisor", func(d decl) []string { return []string{"this.r = args.x / " + d.elem("args.k")} }},
+		{"modulus", func(d decl) []string { return []string{"this.r = args.x % " + d.elem("args.k")} }},
+		{"index offset", func(d decl) []string { return []string{"this.r = this.a[" + d.elem("args.k") + " - 1] as base.u32"} }},
+		{"callee argument", func(d decl) []string { return []string{"this.r = this.q(v: " + d.elem("args.k") + ")"} }},
+		{"store then divide", func(d decl) []string {
+			return []string{d.elem("0") + " = 5", "this.r = args.x / " + d.elem("0")}
+		}},
+		{"store elsewhere then divide", func(d decl) []string {
+			return []string{d.elem("0") + " = 5", "this.r = args.x / " + d.elem("args.k")}
+		}},
+		{"divisor through a slice", func(d decl) []string {
+			if d.slice == "" {
+				return nil
+			}
+			return []string{"s = " + d.slice, "if s.length() > 0 {", "this.r = args.x / s[0]", "}"}
+		}},
+		{"copy out, then divide", func(d decl) []string { return []string{"e = " + d.elem("args.k"), "this.r = args.x / e"} }},
+	}
+	q := fn{header: "pri func foo.q(v: base.u32[1 ..= 8]) base.u32", body: []string{"return 100 / args.v"}}
+	for _, d := range decls {
+		for _, u := range uses {
+			body := u.body(d)
+			if body == nil {
+				continue
+			}
+			fields := []string{"r : base.u32", "a : array[8] base.u8"}
+			if d.field != "" {
+				fields = append(fields, d.field)
+			}
+			vars := []string{"s : slice base.u32[1 ..= 8]", "e : base.u32[..= 8]"}
+			if strings.Contains(d.tag, "zero allowed") {
+				vars[0] = "s : slice base.u32[..= 8]"
+			}
+			if d.local != "" {
+				vars = append(vars, d.local)
+			}
+			w := fn{header: "pub func foo.w!(k: base.u32[..= 3], v: base.u32[1 ..= 8])", body: []string{"this.a[args.k] = 7"}}
+			if d.field != "" {
+				w.body = append(w.body, d.elem("args.k")+" = args.v")
+			}
+			m := fn{header: "pub func foo.m!(x: base.u32[..= 100], k: base.u32[..= 3])", vars: vars, body: body}
+			out = append(out, mk("refine", render("foo", fields, q, w, m), tags("decl", d.tag, "nonzero-use", u.tag), nil))
+		}
 	}
 	return out
 }
